@@ -44,7 +44,7 @@ func runC03(r *Report) {
 			}
 			if c.Call.IsInvoke() && c.Call.Value == h && c.Call.Method.Name() == "Write" {
 				fed++
-				if po := paramOrigin(c.Call.Args[0]); po == nil || po.Name() != "key" {
+				if po := paramOrigin(c.Call.Args[0]); po == nil || refName(po) != "key" {
 					okFed = false
 				}
 			}
@@ -89,7 +89,7 @@ func runC03(r *Report) {
 				}
 			}
 			// the data write receives the value parameter
-			if po := paramOrigin(argsOf(dw[0].Call())[0]); po == nil || po.Name() != "value" {
+			if po := paramOrigin(argsOf(dw[0].Call())[0]); po == nil || refName(po) != "value" {
 				off = nil
 			}
 		}
@@ -110,7 +110,7 @@ func runC03(r *Report) {
 				sum := st.Val
 				// the sum may pass through the shared zero-avoiding helper together with the value it was computed from
 				if hc, ok := sum.(*ssa.Call); ok && CalleeKey(hc) == "sstables.nonZeroChecksum" && len(hc.Call.Args) == 2 {
-					if po := paramOrigin(hc.Call.Args[1]); po != nil && po.Name() == "value" {
+					if po := paramOrigin(hc.Call.Args[1]); po != nil && refName(po) == "value" {
 						sum = hc.Call.Args[0]
 					}
 				}
@@ -120,7 +120,7 @@ func runC03(r *Report) {
 					}
 				}
 			case "Key":
-				if po := paramOrigin(st.Val); po != nil && po.Name() == "key" {
+				if po := paramOrigin(st.Val); po != nil && refName(po) == "key" {
 					okK = true
 				}
 			}
@@ -276,7 +276,7 @@ func ruleBoundsSign(r *Report) {
 				return
 			}
 			a := argsOf(c)
-			if po := paramOrigin(a[1]); po != nil && strings.Contains(strings.ToLower(po.Name()), "high") && paramOrigin(a[0]) == nil {
+			if po := paramOrigin(a[1]); po != nil && strings.Contains(strings.ToLower(refName(po)), "high") && paramOrigin(a[0]) == nil {
 				ss := s
 				cmp = &ss
 			}
@@ -306,7 +306,7 @@ func ruleBoundsSign(r *Report) {
 		eachInstr(fn, func(s Site) {
 			if c, ok := s.Instr.(*ssa.Call); ok && isCompareCall(c) {
 				a := argsOf(c)
-				if po := paramOrigin(a[1]); po != nil && po.Name() == "target" {
+				if po := paramOrigin(a[1]); po != nil && refName(po) == "target" {
 					cmps = append(cmps, s)
 				}
 			}
@@ -469,7 +469,7 @@ func ruleWrap(r *Report) {
 		var hi *ssa.Call
 		for _, s := range CallsIn(fn, Suffix("DiskKeyIndex.binarySearch")) {
 			a := s.Call().Common().Args
-			if po := paramOrigin(a[len(a)-1]); po != nil && strings.Contains(strings.ToLower(po.Name()), "high") {
+			if po := paramOrigin(a[len(a)-1]); po != nil && strings.Contains(strings.ToLower(refName(po)), "high") {
 				hi = s.Instr.(*ssa.Call)
 			}
 		}
@@ -974,7 +974,7 @@ func ruleMapLookupVerified(r *Report) {
 		cmp := false
 		for _, c := range CallsIn(fn, Keys("bytes.Equal", "bytes.Compare")) {
 			for _, a := range c.Call().Common().Args {
-				if po := paramOrigin(a); po != nil && po.Name() == "key" {
+				if po := paramOrigin(a); po != nil && refName(po) == "key" {
 					cmp = true
 				}
 			}
@@ -997,7 +997,7 @@ func ruleMapLookupVerified(r *Report) {
 						return false
 					}
 					for _, a := range c.Call.Args {
-						if po := paramOrigin(a); po != nil && po.Name() == "key" {
+						if po := paramOrigin(a); po != nil && refName(po) == "key" {
 							return true
 						}
 					}
@@ -1078,7 +1078,7 @@ func ruleMapLookupVerified(r *Report) {
 							return false
 						}
 						po := paramOrigin(c.Call.Args[0])
-						return po != nil && po.Name() == "key"
+						return po != nil && refName(po) == "key"
 					}) {
 						g = true
 					}
@@ -1094,7 +1094,7 @@ func ruleMapLookupVerified(r *Report) {
 						}
 						for i, a := range c.Call.Args {
 							po := paramOrigin(a)
-							if po == nil || po.Name() != "key" || po.Parent() != fn || i >= len(sc.Params) {
+							if po == nil || refName(po) != "key" || po.Parent() != fn || i >= len(sc.Params) {
 								continue
 							}
 							hp := sc.Params[i]
